@@ -78,6 +78,13 @@ var fields = map[string]field{
 		b.WriteString(e.RequestURL.RawQuery)
 	},
 	"$request_host": func(b *bytes.Buffer, e *Event) {
+		// cannot use e.Request.Host if the request URL is known since
+		// it is replaced with the upstream host for routes with the
+		// host option
+		if e.RequestURL != nil {
+			b.WriteString(e.RequestURL.Host)
+			return
+		}
 		if e.Request == nil {
 			return
 		}
